@@ -12,6 +12,8 @@ the cursor never passes it (`0 :: junk` is still ahead).
 
 Core-only.
 -/
+import Osmium.Model.Chunks
+
 namespace Osmium.HostileText
 
 abbrev Bytes := List UInt8
@@ -33,5 +35,27 @@ def StopsAtNul {ε α : Type} (f : Bytes → Except ε (α × Bytes)) : Prop :=
 /-- a parser without cursor result: its value does not depend on what lies behind the NUL -/
 def IgnoresBehindNul {β : Type} (f : Bytes → β) : Prop :=
   ∀ (s junk : Bytes), NoNul s → f (s ++ behind junk) = f s
+
+/-! ### linear-time line splitting for the model driver
+
+`Chunks.specLines` (the C06 specification of the OPL reader's line splitting) appends to the end of
+the segment under construction: quadratic in the line length, minutes for the 64 KiB lines of the
+hostile tier.  `specLinesFast` is the same function with reversed accumulators
+(`Lemmas/HostileText.lean: specLinesFast_eq`, `Props/C03Text.lean: opl_driver_lines_eq`);
+Driver/Text.lean uses it for `rd opl`. -/
+
+def segsFast : Bytes → Bytes → List Bytes → List Bytes × Bytes
+  | [], cur, acc => (acc.reverse, cur.reverse)
+  | b :: bs, cur, acc =>
+    if Chunks.isBreak b then segsFast bs [] (cur.reverse :: acc) else segsFast bs (b :: cur) acc
+
+def specLinesFast (bs : Bytes) : List Bytes :=
+  let r := segsFast bs [] []
+  (r.1 ++ [r.2]).filter (fun l => !l.isEmpty)
+
+/-- `Chunks.cstr`, tail recursive -/
+def cstrFast : Bytes → Bytes → Bytes
+  | [], acc => acc.reverse
+  | b :: bs, acc => if b == 0 then acc.reverse else cstrFast bs (b :: acc)
 
 end Osmium.HostileText
